@@ -31,6 +31,7 @@ type writeSite struct {
 	origin *ssa.Function // the function containing the write itself
 	alt    int           // >0: the k-th alternative of a merged operand (splitPhiOperand)
 	origT  []string      // operand terms before any operand was split into alternatives
+	done   map[ssa.Value]bool // operands already resolved into an alternative (not split again)
 }
 
 // varargElems returns the elements stored into a varargs slice value.
@@ -472,7 +473,7 @@ func (c *Ctx) splitPhiOperand(fn *ssa.Function, ws writeSite) []writeSite {
 	// an operand computed by a conditional value helper: one site per alternative
 	for i, a := range ws.args {
 		call, ok := a.(*ssa.Call)
-		if !ok {
+		if !ok || ws.done[a] {
 			continue
 		}
 		alts, ok := pc.altsOfCall(call)
@@ -485,7 +486,10 @@ func (c *Ctx) splitPhiOperand(fn *ssa.Function, ws writeSite) []writeSite {
 			ns.alt = ws.alt*8 + k + 1
 			ns.cond = andDNF(ws.cond, dnf{cs: []conj{al.cond}})
 			ns.args = append([]ssa.Value{}, ws.args...)
-			ns.args[i] = nil // resolved; the term stands for it from here on
+			ns.done = map[ssa.Value]bool{a: true} // resolved; the term stands for it from here on
+			for k := range ws.done {
+				ns.done[k] = true
+			}
 			ns.argT = append([]string{}, ws.argT...)
 			ns.argT[i] = al.term
 			out = append(out, c.splitPhiOperand(fn, ns)...) // other operands may have alternatives too
